@@ -19,10 +19,29 @@ ASSUMPTIONS = ['BranchTarget helper calls the hook for every node as it arrives 
 CLASSICAL_PRED_CLOSURES = {'SelfIdentityClosure', 'NonExistenceClosure'}
 
 
+def r7(ctx, rep):
+    """A closing pair on a branch closes it only if the step loop applies the closure rule that found it: Rule.target and the group
+    application folded for every value of the search options (sa.search; = C03.R6 / C09.R2)."""
+    from .. import search
+    R7 = rep.rule('C05.R7', 'a closure rule that has a target is applied, whatever the search options: Rule.target and Tableau._get_group_application folded over '
+                            'mock rules / targets for every value of is_group_optim / is_rank_optim -- a rule with a target is never passed over (= C03.R6)')
+    n = 0
+    for fold in (search.fold_rule_target, search.fold_group_application):
+        res, cons = fold(ctx.m)
+        rep.consult(*cons)
+        for ok, case, detail in res:
+            n += 1
+            rep.instance(R7, ok=ok, nontrivial=(fold.__name__, case))
+            if not ok:
+                rep.finding(R7, f'C05.R7/{fold.__name__[5:]}/{case}', cons[0].split(' ')[0], fold.__name__[5:], f'{case}: {detail}')
+    rep.floor('C05.R7', 'choice cases', n, 15)
+
+
 def run(ctx, rep):
     m, lgs = ctx.m, ctx.lgs
     common.check_floors(ctx, rep, 'C05')
     r6(ctx, rep)
+    r7(ctx, rep)
     R0 = rep.rule('C05.R0', 'closure engine: FindClosingNodeRule targets exactly when a partner is found (folded); BranchValueHook caches the first target')
     from ..minieval import Interp as _I, Raises as _Rs
     RULES = 'pytableaux.proof.rules'
